@@ -29,9 +29,11 @@ import (
 type c13WatchCfg struct{}
 
 type c13WatchExt struct {
-	mu   sync.Mutex
-	got  []map[string]any
-	done chan struct{}
+	mu    sync.Mutex
+	name  string
+	got   []map[string]any
+	entry []string // canonical form of what was received, taken ON ENTRY (before this watcher edits its copy)
+	done  chan struct{}
 }
 
 func (e *c13WatchExt) Start(context.Context, component.Host) error { return nil }
@@ -40,6 +42,14 @@ func (e *c13WatchExt) NotifyConfig(_ context.Context, conf *confmap.Conf) error 
 	e.mu.Lock()
 	defer e.mu.Unlock()
 	e.got = append(e.got, conf.ToStringMap())
+	e.entry = append(e.entry, c13Canon(conf.ToStringMap()))
+	// a watcher owns the configuration it is handed: this one annotates and overwrites its copy (what a redacting / labelling
+	// extension does); no other watcher may see that
+	_ = conf.Merge(confmap.NewFromStringMap(map[string]any{
+		"verif_edited_by": e.name,
+		"receivers":       map[string]any{"nop": map[string]any{"verif_edited_by": e.name}},
+		"service":         map[string]any{"extensions": []any{"edited-by-" + e.name}},
+	}))
 	select {
 	case <-e.done:
 	default:
@@ -85,7 +95,12 @@ func TestVerifC13Watch(t *testing.T) {
 	for _, c := range vCases(vN(12)) {
 		rnd := vRand(c)
 		insts, nsec, _ := c13GenInsts(rnd, c, kinds, toggles)
-		ext := &c13WatchExt{done: make(chan struct{})}
+		ext := &c13WatchExt{name: "verifwatcher", done: make(chan struct{})}
+		// two more ConfigWatcher extensions of the same type: every one of them must be handed the configuration as written,
+		// whatever the ones notified before it did to their copies; the listing order alternates with the case index
+		extB := &c13WatchExt{name: "verifwatcher/b", done: make(chan struct{})}
+		extC := &c13WatchExt{name: "verifwatcher/c", done: make(chan struct{})}
+		watchers := map[string]*c13WatchExt{"verifwatcher": ext, "verifwatcher/b": extB, "verifwatcher/c": extC}
 		watchType := component.MustNewType("verifwatcher")
 		factories := func() (otelcol.Factories, error) {
 			f, err := components()
@@ -93,7 +108,10 @@ func TestVerifC13Watch(t *testing.T) {
 				return f, err
 			}
 			f.Extensions[watchType] = extension.NewFactory(watchType, func() component.Config { return &c13WatchCfg{} },
-				func(context.Context, extension.Settings, component.Config) (extension.Extension, error) {
+				func(_ context.Context, set extension.Settings, _ component.Config) (extension.Extension, error) {
+					if w := watchers[set.ID.String()]; w != nil {
+						return w, nil
+					}
 					return ext, nil
 				},
 				component.StabilityLevelDevelopment)
@@ -154,8 +172,14 @@ func TestVerifC13Watch(t *testing.T) {
 		put("receivers", "nop", map[string]any{})
 		put("exporters", "nop", map[string]any{})
 		put("extensions", "verifwatcher", map[string]any{})
+		put("extensions", "verifwatcher/b", map[string]any{})
+		put("extensions", "verifwatcher/c", map[string]any{})
+		order := []any{"verifwatcher", "verifwatcher/b", "verifwatcher/c"}
+		if c%2 == 1 {
+			order = []any{"verifwatcher/c", "verifwatcher/b", "verifwatcher"}
+		}
 		root["service"] = map[string]any{
-			"extensions": []any{"verifwatcher"},
+			"extensions": order,
 			"telemetry":  map[string]any{"metrics": map[string]any{"level": "none"}, "logs": map[string]any{"level": "error"}},
 			"pipelines":  map[string]any{"traces": map[string]any{"receivers": []any{"nop"}, "exporters": []any{"nop"}}},
 		}
@@ -183,11 +207,16 @@ func TestVerifC13Watch(t *testing.T) {
 			runErr <- col.Run(ctx)
 		}()
 		var early error
-		select {
-		case <-ext.done:
-		case early = <-runErr:
-		case <-time.After(20 * time.Second):
-			early = fmt.Errorf("timeout waiting for NotifyConfig")
+		for _, w := range []*c13WatchExt{ext, extB, extC} {
+			if early != nil {
+				break
+			}
+			select {
+			case <-w.done:
+			case early = <-runErr:
+			case <-time.After(20 * time.Second):
+				early = fmt.Errorf("timeout waiting for NotifyConfig of %s", w.name)
+			}
 		}
 		cancel()
 		col.Shutdown()
@@ -221,6 +250,27 @@ func TestVerifC13Watch(t *testing.T) {
 			out.Linef("viol sig=C13/watch/reference-load-failed err=%s", vHex(err.Error()))
 		} else if c13Canon(got) != c13Canon(want) {
 			out.Linef("viol sig=C13/watch/handed-off-config-differs-from-marshal-of-loaded got=%s want=%s", vHex(c13Canon(got)), vHex(c13Canon(want)))
+		}
+		if err == nil {
+			for _, w := range []*c13WatchExt{ext, extB, extC} {
+				w.mu.Lock()
+				entry := append([]string{}, w.entry...)
+				w.mu.Unlock()
+				if len(entry) == 0 {
+					out.Linef("viol sig=C13/watch/watcher-not-notified watcher=%s", w.name)
+					continue
+				}
+				if entry[0] != c13Canon(want) {
+					who := "-"
+					for _, o := range []string{"verifwatcher", "verifwatcher/b", "verifwatcher/c"} {
+						if o != w.name && strings.Contains(entry[0], `"verif_edited_by":"`+o+`"`) {
+							who = o
+						}
+					}
+					out.Linef("viol sig=C13/effective/watcher-sees-anothers-edit watcher=%s edited_by=%s order=%v", w.name, who, order)
+				}
+				out.Linef("stat watchers_checked 1")
+			}
 		}
 		gotFlat := map[string]any{}
 		text := c13Canon(got) + fmt.Sprintf("%v", got)
